@@ -162,11 +162,13 @@ def cop(op):
         return "OHash %d" % op[1]
     if t == "snapall":
         return "OSnapAll"
+    if t == "eq":
+        return "OEq %d %d %s" % (op[1], op[2], cnum(op[3]))
     raise ValueError(t)
 
 
 HEADER = """From Coq Require Import ZArith List String.
-From Hgm Require Import NumOps F64 Xq Agg Ops Expr Build Snap Json Run Forest RunId.
+From Hgm Require Import NumOps F64 Xq Agg Ops Expr Build Snap Json Eq Run Forest RunId.
 Import ListNotations.
 Open Scope Z_scope. Open Scope string_scope.
 Set Printing Width 100000000. Set Printing Depth 100000000.
